@@ -2,7 +2,7 @@
 from itertools import product
 
 from .fx import FxBuilder, tree_paths, walk_tree, unstamp, path_value
-from .expr import show
+from .expr import show, walk
 from .teval import TreeEval, Unsupported, Panic
 from .apirules import API_STOP, PathFacts, norm_val, SEMI_VALIDATE, VALIDATE
 from .boardsim import cell, sq, castling_rank_idx, PAWN, KING, KNIGHT, WHITE, BLACK, KINDS
@@ -125,6 +125,37 @@ def conversions_rule(ctx, facts, rid):
                                 if "as_bytes(s)[4]" in show(unstamp(d)) and lab != "else":
                                     for code in lab:
                                         got[chr(code)] = val[1]
+        if not got:
+            # shape-independent fallback: a switch on a byte whose cases are ASCII letters and whose branches produce PromotePiece constants
+            def consts_of(sub):
+                out = set()
+                for m, _c, _i in walk_tree(sub):
+                    if m[0] in ("ret", "lstore"):
+                        for x in walk(unstamp(m[1] if m[0] == "ret" else m[4])):
+                            if x[0] == "const" and isinstance(x[2], str) and x[2].endswith("PromotePiece"):
+                                out.add(x[1])
+                return out
+            phis = {}
+            for n_, conds, _i in walk_tree(tree):
+                if n_[0] == "ret":
+                    for x in walk(n_[1]):
+                        if x[0] == "phi":
+                            phis.setdefault(x[1], []).append(x)
+            for n_, conds, _i in walk_tree(tree):
+                if n_[0] == "switch" and n_[4] and all(isinstance(v, int) and 65 <= v <= 122 for v in n_[4]):
+                    for lab, sub in n_[2].items():
+                        if lab == "else":
+                            continue
+                        cs = consts_of(sub)
+                        for ph in phis.get(n_[5], ()):
+                            for l2, v2 in ph[3]:
+                                if l2 == lab:
+                                    for x in walk(unstamp(v2)):
+                                        if x[0] == "const" and isinstance(x[2], str) and x[2].endswith("PromotePiece"):
+                                            cs.add(x[1])
+                        if len(cs) == 1:
+                            for code in lab:
+                                got[chr(code)] = next(iter(cs))
         want = {k: pp[v] for k, v in letters.items()}
         r.check(got == want, "uci-reader-letters", "uci::Move::from_str reads promotion letters %s, expected %s" % (got, want), site=ctx.site(rd),
                 what="reader: n/b/r/q")
